@@ -139,11 +139,11 @@ int main(int argc, char** argv)
         for (bool times : {false, true})
             for (bool chk : {false, true})
                 for (unsigned s : {2u, 8u})
-                    for (auto a : {AlongStep::linear_fluct, AlongStep::field_fluct})
+                    for (auto a : {AlongStep::linear_msc_fluct, AlongStep::field_msc_fluct})
                     {
                         if (!thorough && (times != chk))
                             continue;  // quick: (off,off) and (on,on)
-                        if (!thorough && a == AlongStep::linear_fluct && s == 8)
+                        if (!thorough && a == AlongStep::linear_msc_fluct && s == 8)
                             continue;
                         cfgs.push_back({fmt("o%d.t%d.c%d.s%u.%s", int(o), int(times), int(chk), s,
                                             along_name(a)),
